@@ -116,7 +116,7 @@ func runConcurrently(w *world, lists [][]*op) []listResult {
 	res := make([]listResult, len(lists))
 	envs := make([]*env, len(lists))
 	for g := range lists {
-		envs[g] = newEnv(w, fmt.Sprintf("g%d", g))
+		envs[g] = newEnv(w, 1, fmt.Sprintf("g%d", g))
 	}
 	var ready, done sync.WaitGroup
 	start := make(chan struct{})
@@ -250,7 +250,7 @@ func worldCase(c *driver.Ctx, rl *raceLog, sp *worldSpec, round, opsPerList int)
 	t0 := time.Now()
 	want := make([]listResult, nGoroutines)
 	for g := range lists {
-		runList(newEnv(solo, fmt.Sprintf("solo%d", g)), lists[g], t0, &want[g])
+		runList(newEnv(solo, 0, fmt.Sprintf("solo%d", g)), lists[g], t0, &want[g])
 		c.Count("solo_ops", len(lists[g]))
 	}
 	// sanity of the harness itself: ops are self-contained, so solo results must not depend on order
@@ -294,6 +294,11 @@ func worldCase(c *driver.Ctx, rl *raceLog, sp *worldSpec, round, opsPerList int)
 	for p, o := range base {
 		out := first[p]
 		c.Count("ops_"+o.cat, nGoroutines)
+		if o.progs[1] != nil {
+			c.Count("ops_on_one_shared_compiled_program", nGoroutines)
+		} else if o.src != "" {
+			c.Count("ops_compiled_by_each_goroutine", nGoroutines)
+		}
 		c.Cover("op_kinds", o.kind)
 		switch {
 		case strings.HasPrefix(out, panicMark):
